@@ -1,7 +1,7 @@
 """C03 - identifiers stay stable through the whole simulation lifecycle."""
 import ast
 
-from engine.astutil import U
+from engine.astutil import U, attr_tail
 from engine import idscope
 from engine.repo import AnalysisError
 from . import common
@@ -23,8 +23,9 @@ RULES = {
     "R3": "ScreenSubset id properties index the parent's arrays by the selection vector; mapping properties return "
           "the parent's mapping objects",
     "R4": "ExperimentSpace.from_screen passes the screen's mapping objects; sizes derive from the mapping tuple",
+    "R5": "a supplied mapping is used and handed back verbatim by both encoders (shared with C01.R5)",
 }
-MIN = {"R1": 12, "R2": 2, "R3": 5, "R4": 3}
+MIN = {"R1": 12, "R2": 2, "R3": 5, "R4": 3, "R5": 4}
 TRUSTED = ["python ast semantics", "numpy boolean indexing keeps row order", "call graph: typed resolution + name-CHA "
            "fallback (over-approximate); dynamic class lookup via introspection.get_class is assumed to yield "
            "subclasses of the declared base"]
@@ -255,7 +256,23 @@ def run(ctx):
     r4(ctx)
 
 
-RULE_FUNCS = [r1, r2, r3, r4]
+def r5(ctx):
+    """a supplied mapping stays the screen's mapping: both encoders build their id table from the mapping's columns verbatim and return
+    that table (clause shared with C01.R5) - a pruned or renumbered table would shrink / renumber the universe of every derived screen"""
+    from rules import C01
+    C01.mapping_verbatim(ctx, "R5")
+    for q in (C01.ENC_T, C01.ENC_1):
+        f, body, ret, elts, jd = C01.encoder_facts(ctx, q)
+        table = U(jd.value.args[0]) if jd.value.args else None
+        cols = []
+        for e in elts[1:]:
+            base = e.func.value if isinstance(e, ast.Call) and attr_tail(e) == "to_numpy" else (e.value if isinstance(e, ast.Attribute) and e.attr == "values" else None)
+            cols.append(U(base.value) if isinstance(base, ast.Attribute) else None)
+        ctx.check("R5", f"{f.site()}::returns-the-table", table is not None and cols and all(c == table for c in cols), "the returned mapping columns are read from the id table itself",
+                  f"the returned mapping columns {[U(e)[:40] for e in elts[1:]]} are not the columns of the id table `{table}`")
+
+
+RULE_FUNCS = [r1, r2, r3, r4, r5]
 
 
 def _drop_kw(fn_name, kw):
